@@ -64,6 +64,7 @@ fn main() {
         "C11" => props::c11::run(rest),
         "C12" => props::c12::run(rest),
         "C13" => props::c13::run(rest),
+        "C14" => props::c14::run(rest),
         "C15" => props::c15::run(rest),
         "C16" => props::c16::run(rest),
         "C17" => props::c17::run(rest),
